@@ -242,6 +242,10 @@ func (d *dsys) Apply(i int) (sig, desc string) {
 		d.s.ShowCursor(o.x, o.y)
 		d.cx, d.cy = o.x, o.y
 		d.altOK = false
+	case "hidecursor":
+		d.s.HideCursor()
+		d.cx, d.cy = -1, -1
+		d.altOK = false
 	case "lock":
 		d.s.LockRegion(o.x, o.y, o.w, o.h, o.lock)
 		d.sh.LockRegion(o.x, o.y, o.w, o.h, o.lock)
@@ -332,7 +336,7 @@ func drawScenarios() map[string][]op {
 	{
 		ops := []op{{kind: "setsize", w: 3, h: 2}, {kind: "setsize", w: 4, h: 1}, {kind: "setsize", w: 2, h: 2}, {kind: "setsize", w: 1, h: 1},
 			{kind: "set", x: 0, y: 0, r: 'a', st: 1}, {kind: "set", x: 1, y: 0, r: '世'}, {kind: "set", x: 2, y: 1, r: 'c', st: 3}, {kind: "set", x: 1, y: 1, r: 'd'},
-			{kind: "cursor", x: 1, y: 0}, {kind: "cursor", x: 3, y: 1}, {kind: "cursor", x: -1, y: -1},
+			{kind: "cursor", x: 1, y: 0}, {kind: "cursor", x: 3, y: 1}, {kind: "cursor", x: -1, y: -1}, {kind: "hidecursor"},
 			{kind: "lock", x: 0, y: 0, w: 2, h: 1, lock: true}, {kind: "lock", x: 0, y: 0, w: 2, h: 1, lock: false}, show, sync}
 		out["R-setsize-cursor-lock-3x2"] = ops
 	}
